@@ -393,14 +393,37 @@ func offerCase(w *world, idx int) {
 	}
 	rp := w.sendOffer(o, keys)
 	r.Eval(1)
+	heldAt := time.Now()
+	// After the offer under test (and its transfer, whatever its outcome) the keys held by the other offerer
+	// are still being received: offering them again must not be accepted. The node's own 15 s accept timeout
+	// would end the reception legitimately, so this is only judged early enough, and only if the holder's
+	// transfer then still goes through (which proves the node was still waiting for it).
+	reofferHeld := func() (acceptedAgain []int, checked bool) {
+		if len(held) == 0 || o.version != 1 || time.Since(heldAt) > 7*time.Second {
+			return nil, false
+		}
+		rp2 := w.sendOffer(o, held)
+		if !rp2.ok || len(rp2.verdicts) != len(held) {
+			return nil, false
+		}
+		return rp2.accepted(), true
+	}
 	releaseHeld := func() {
 		if len(held) > 0 { // complete the holder's transfer so that the marks disappear
 			var cs [][]byte
 			for range held {
 				cs = append(cs, []byte("held"))
 			}
-			_ = w.stream(w.holder, holdReply.connID, portalwire.VerifEncodeContents(cs), 3*time.Second)
-			w.awaitElement(w.holder, 3*time.Second)
+			again, checked := reofferHeld()
+			err := w.stream(w.holder, holdReply.connID, portalwire.VerifEncodeContents(cs), 3*time.Second)
+			el := w.awaitElement(w.holder, 3*time.Second)
+			if checked {
+				r.Count("held_keys_reoffered_after_other_transfer", 1)
+				if len(again) > 0 && err == nil && el != nil {
+					r.Violation("accepted:in-flight:after-other-offer-finished", fmt.Sprintf("%d keys that another offerer's accepted transfer was still delivering were marked accepted again after an unrelated offer containing them had finished (the first transfer then completed normally)", len(again)),
+						map[string]any{"case": idx, "held_keys": len(held), "accepted_again": again})
+				}
+			}
 		}
 	}
 	defer releaseHeld()
@@ -556,8 +579,20 @@ func slotCases(r *lib.Run, idx, limit int) {
 		holders = append(holders, o)
 	}
 	// now every slot is taken: nobody may get an accepted verdict
-	for _, o := range offs[:3] {
+	for oi, o := range offs[:3] {
 		ks := fresh(1 + rng.Intn(3))
+		if oi > 0 || rng.Intn(2) == 0 {
+			// mixed offer: keys that are declined for another reason (already stored) in front of and between fresh ones
+			mixed := [][]byte{}
+			for i, k := range fresh(2 + rng.Intn(3)) {
+				if i%2 == 0 {
+					id := cid(k)
+					_ = w.store.Put(k, id[:], []byte("already here"))
+				}
+				mixed = append(mixed, k)
+			}
+			ks = append(mixed, ks...)
+		}
 		rp := w.sendOffer(o, ks)
 		r.Eval(1)
 		if !rp.ok {
